@@ -1,2 +1,145 @@
-(* C05 — property theorems (being written). *)
-From HV Require Import Model.Keys Model.Tstate.
+(* C05 — State access is confined to declared keys and permissions.
+   Property theorems only; model: Model/Keys.v (state/keys.go), Model/Tstate.v (checkScope in every
+   operation of tstate_view.go); proofs: Proofs/Keys_proofs.v, Proofs/Tstate_proofs.v.
+   The union of declarations computed by chain.Transaction.StateKeys is [keys_add_all]. *)
+From stdpp Require Import gmap.
+From Coq Require Import NArith.
+From HV Require Import Lib.Bytes Model.Keys Model.Tstate Proofs.Keys_proofs Proofs.Tstate_proofs.
+Local Open Scope N_scope.
+
+(* Permissions.Has is the subset order on bits (all bit positions, not only a byte) ... *)
+Theorem C05_lattice : forall p req : perm,
+  (perm_has p req = true <-> forall i, N.testbit req i = true -> N.testbit p i = true)
+  /\ (perm_has p pAllocate = true -> perm_has p pRead = true)
+  /\ (perm_has p pWrite = true -> perm_has p pRead = true)
+  /\ perm_has p pNone = true
+  /\ (forall q s, perm_has s (perm_union p q) = perm_has s p && perm_has s q).
+Proof.
+  intros p req. split; [apply perm_has_spec|]. split; [apply allocate_has_read|].
+  split; [apply write_has_read|]. split; [apply perm_has_none|].
+  intros q s. apply perm_has_union_lub.
+Qed.
+Print Assumptions C05_lattice.
+
+(* ... and, as a finite table over all 256 x 256 (permission, requirement) bytes, it is the
+   bit-subset test of the eight bits (finite domain, computed, lifted with forallb_forall). *)
+Theorem C05_lattice_bytes : forall p req : N, p < 256 -> req < 256 ->
+  perm_has p req = subset_bits p req.
+Proof. exact lattice_bytes. Qed.
+Print Assumptions C05_lattice_bytes.
+
+(* Duplicate declarations of a key (several actions, the sponsor) combine by bitwise or; the fold
+   fails exactly when some declared key is malformed. *)
+Theorem C05_union : forall (decls : list (key * perm)),
+  (forall m, keys_add_all ∅ decls = Some m ->
+     forall k, default 0 (m !! k) = declared_perm 0 decls k)
+  /\ (keys_add_all ∅ decls = None <-> Exists (fun kp => valid (fst kp) = false) decls).
+Proof.
+  intros decls. split.
+  - intros m H k. destruct (keys_add_all_spec _ _ _ H) as (H1 & _). rewrite H1, lookup_empty. reflexivity.
+  - apply keys_add_all_fail.
+Qed.
+Print Assumptions C05_union.
+
+(* A read that is not denied was declared with Read. *)
+Theorem C05_get_needs_read : forall (s : view) (k : key),
+  get s k <> inr EPerm -> scope_has (v_scope s) k pRead = true.
+Proof. exact get_needs_read. Qed.
+Print Assumptions C05_get_needs_read.
+
+(* A successful Insert / Remove was declared with Write. *)
+Theorem C05_write_needs_write : forall (s s' : view) (k : key),
+  (forall v, insert s k v = (s', None) -> scope_has (v_scope s) k pWrite = true)
+  /\ (remove s k = (s', None) -> scope_has (v_scope s) k pWrite = true).
+Proof.
+  intros s s' k. split.
+  - intros v H. exact (proj1 (insert_ok_conds _ _ _ _ H)).
+  - exact (remove_ok_conds s k s').
+Qed.
+Print Assumptions C05_write_needs_write.
+
+(* Creating a key (it is not visible before the Insert) also needs Allocate. *)
+Theorem C05_create_needs_allocate : forall (s s' : view) (k : key) (v : val),
+  insert s k v = (s', None) -> vis s k = None -> scope_has (v_scope s) k pAllocate = true.
+Proof. intros s s' k v H. exact (proj2 (proj2 (insert_ok_conds _ _ _ _ H))). Qed.
+Print Assumptions C05_create_needs_allocate.
+
+(* An undeclared access fails with ErrInvalidKeyOrPermission and leaves the view (every field)
+   untouched; any failing operation leaves the view untouched. *)
+Theorem C05_denied_no_effect : forall (s : view) (k : key),
+  (scope_has (v_scope s) k pRead = false -> get s k = inr EPerm)
+  /\ (scope_has (v_scope s) k pWrite = false ->
+        (forall v, insert s k v = (s, Some EPerm)) /\ remove s k = (s, Some EPerm))
+  /\ (scope_has (v_scope s) k pAllocate = false -> vis s k = None ->
+        forall v, exists e, insert s k v = (s, Some e))
+  /\ (forall v s' e, insert s k v = (s', Some e) -> s' = s)
+  /\ (forall s' e, remove s k = (s', Some e) -> s' = s).
+Proof.
+  intros s k. split; [apply get_denied|]. split.
+  - intros H. split; [intros v; apply insert_denied; exact H | apply remove_denied; exact H].
+  - split; [intros Ha Hv v; apply create_denied; assumption|]. split.
+    + intros v s' e H. exact (insert_fail _ _ _ _ _ H).
+    + intros s' e H. exact (proj1 (remove_fail _ _ _ _ H)).
+Qed.
+Print Assumptions C05_denied_no_effect.
+
+(* Confinement, write side: no sequence of operations (rollbacks included) changes the visible value
+   of a key that is not write-declared, and nothing is pending (hence nothing is committed) for it. *)
+Theorem C05_confinement : forall ts sc base (h : list hop) (k : key),
+  scope_has sc k pWrite = false ->
+  let s := fst (run (new_view ts sc base) h) in
+  vis s k = vis (new_view ts sc base) k /\ pending s !! k = None
+  /\ ts_changed (commit s) !! k = ts_changed ts !! k.
+Proof.
+  intros ts sc base h k Hw s.
+  destruct (write_confinement (new_view ts sc base) h k (view_ok_new ts sc base) Hw) as [H1 H2].
+  split; [exact H1|]. split; [exact H2|].
+  destruct (run_env h (new_view ts sc base)) as (E & _).
+  subst s. rewrite commit_lookup, H2, E. reflexivity.
+Qed.
+Print Assumptions C05_confinement.
+
+(* Confinement, read side (the footprint lemma): the results of every history and the changes it
+   leaves pending depend only on the underlying values of the read-declared keys. *)
+Theorem C05_read_footprint : forall ts1 ts2 sc base1 base2 (h : list hop),
+  (forall k, scope_has sc k pRead = true -> under_of ts1 base1 k = under_of ts2 base2 k) ->
+  snd (run (new_view ts1 sc base1) h) = snd (run (new_view ts2 sc base2) h)
+  /\ pending (fst (run (new_view ts1 sc base1) h)) = pending (fst (run (new_view ts2 sc base2) h))
+  /\ op_index (fst (run (new_view ts1 sc base1) h)) = op_index (fst (run (new_view ts2 sc base2) h)).
+Proof.
+  intros ts1 ts2 sc base1 base2 h H.
+  destruct (agree_run h _ _ (agree_new ts1 ts2 sc base1 base2 H)) as [Hr (_ & Hp & Ho & _)].
+  split; [exact Hr|]. split; [exact Hp|]. unfold op_index. rewrite Ho. reflexivity.
+Qed.
+Print Assumptions C05_read_footprint.
+
+(* one-step form for programs whose next operation depends on earlier results *)
+Theorem C05_read_footprint_step : forall (s1 s2 : view) (x : hop), agree s1 s2 ->
+  snd (step s1 x) = snd (step s2 x) /\ agree (fst (step s1 x)) (fst (step s2 x)).
+Proof. exact agree_step. Qed.
+Print Assumptions C05_read_footprint_step.
+
+(* ---- non-vacuity *)
+Definition ex_k : key := [97; 0; 1].
+Definition ex_q : key := [98; 0; 1].
+Definition ex_r : key := [97; 0; 2].   (* differs from ex_k only in the size suffix *)
+
+Example C05_union_example :
+  exists m, keys_add_all ∅ [(ex_k, 1); (ex_q, 2); (ex_k, 4); (ex_q, 1)] = Some m
+            /\ keys_has m ex_k pWrite = true /\ keys_has m ex_k pAllocate = false
+            /\ keys_has m ex_q pAllocate = true /\ keys_has m ex_r pRead = false.
+Proof. eexists. split; [reflexivity|]. vm_compute. repeat split; reflexivity. Qed.
+
+Example C05_denied_example :
+  let s := new_view ts_new (ScopeKeys {[ex_k := pWrite]}) {[ex_r := [5]]} in
+  get s ex_r = inr EPerm /\ snd (insert s ex_k [1]) = Some EPerm /\ snd (remove s ex_k) = None.
+Proof. vm_compute. auto. Qed.
+
+Example C05_footprint_hypothesis_example :
+  forall k, scope_has (ScopeKeys {[ex_k := pRead]}) k pRead = true ->
+    under_of ts_new {[ex_k := [1]; ex_q := [2]]} k = under_of ts_new {[ex_k := [1]; ex_q := [3]]} k.
+Proof.
+  intros k H. destruct (decide (k = ex_k)) as [->|Hne]; [reflexivity|].
+  exfalso. cbn [scope_has] in H. unfold keys_has in H. rewrite lookup_singleton_ne in H by congruence.
+  cbn in H. discriminate H.
+Qed.
